@@ -1174,11 +1174,31 @@ def args_of(text):
     return text[i:] if i >= 0 else None
 
 
-def optstring_unwritten(h, idx):
-    """F-C17l: line idx of the history is a parse of an object none of whose options has a short name (sc_options_parse then
-    never writes to its local optstring) and the operation before it filled the stack with non-zero bytes"""
+def collisions_from_text(h, idx):
+    """replay files written before the generator recorded F-C17k collisions: recompute them from the text of the loaded file"""
     w = h.lines[idx].split()
-    if w[0] != "parse" or idx < 1 or not h.lines[idx - 1].startswith("dirty ") or h.lines[idx - 1].split()[1] == "0":
+    text = None
+    for l in h.lines[:idx]:
+        if l.startswith("file " + w[2] + " "):
+            text = unhx(l.split()[2])
+    if text is None or w[0] != "load":
+        return {"vars": (), "invalid_all_collide": False}
+    heads = set(m.group(1).strip(SPACE).lower() for m in re.finditer(rb"(?m)^[ \t]*\[([^\]\n]*)\][ \t\r]*$", text))
+    o = int(w[1])
+    vs = set()
+    for it in h.decl.objs.get(o if o < 4 else o - 4, []):
+        if it.ty in FILE_TYPES and it.name is not None and b":" in it.name and it.name.lower() in heads:
+            vs.add(it.var)
+    return {"vars": sorted(vs), "invalid_all_collide": False}
+
+
+def optstring_unwritten(h, idx, dirty=True):
+    """F-C17l: line idx of the history is a parse of an object none of whose options has a short name (sc_options_parse then
+    never writes to its local optstring) and - dirty=True - the operation before it filled the stack with non-zero bytes"""
+    w = h.lines[idx].split()
+    if w[0] != "parse":
+        return False
+    if dirty and (idx < 1 or not h.lines[idx - 1].startswith("dirty ") or h.lines[idx - 1].split()[1] == "0"):
         return False
     o = int(w[1])
     return not any(it.ch for it in h.decl.objs[o if o < 4 else o - 4])
@@ -1235,7 +1255,7 @@ def oracle(ctx, h, impl):
                         break
         elif kind == "load":
             exp = chk[3]
-            coll = chk[4] if len(chk) > 4 and chk[4] else {"vars": (), "invalid_all_collide": False}
+            coll = chk[4] if len(chk) > 4 and chk[4] else collisions_from_text(h, idx)
             judged += 1
             if exp == "error":
                 if ret != -1 and coll["invalid_all_collide"]:
@@ -1461,7 +1481,8 @@ def run(ctx):
         if h.hid in crashed:
             continue
         for k in range(min(len(il), len(ml))):
-            if il[k] != ml[k] and k < len(h.lines) and optstring_unwritten(h, k) and re.sub(r" GETOPT_MODEL_(EVENTS|FINAL)$", "", ml[k]) == il[k]:
+            # (dirty=False: should the zero fill of the harness ever miss the buffer, what libc scans is still not determined by the declarations)
+            if il[k] != ml[k] and k < len(h.lines) and optstring_unwritten(h, k, dirty=False) and re.sub(r" GETOPT_MODEL_(EVENTS|FINAL)$", "", ml[k]) == il[k]:
                 # F-C17l: getopt_long was handed an option string the declarations do not determine; the outcome of the parse
                 # itself is modelled from the recorded events and agrees
                 ctx.violation("optstring-uninitialised:getopt-trace", "history %d: getopt_long did not scan `%s` as the declared options say "
@@ -1478,7 +1499,8 @@ def run(ctx):
     ctx.cov["disagreements_checked"] = sum(len(v_) for v_ in impl.values())
     ctx.cov["rule"] = ("histories = a declared option set (all ten option types, short/long names, flat / sub-options / nested sub-options with shared "
                        "variables, declared twice: base + fresh copy) followed by 2-9 random operations (parse of generated valid / invalid vectors, load of "
-                       "generated / mutated / random-byte files, load_args, errno perturbation, save -> load -> load_args -> save round trip), plus aimed "
+                       "generated / mutated / random-byte files, load_args, errno perturbation, save -> load -> load_args -> save round trip; every parse starts "
+                       "from a zero-filled stack, `dirty c` fills it with the byte c), plus aimed "
                        "histories at every numeric boundary text, boolean / key-value spelling, ini-unsafe string class, line-length boundary, and at each "
                        "repaired defect; every output line (return value, all variables, saved text) is compared with the model; a history is non-trivial if "
                        "it contains at least one operation after the declarations; distinct = distinct history text")
